@@ -589,7 +589,14 @@ class Server:
         self.sock = os.path.join(self.dir, "g.sock")
         self.pidfile = os.path.join(self.dir, "pid")
         self.errorlog = os.path.join(self.dir, "error.log")
-        with open(os.path.join(self.dir, "c20app.py"), "w") as fh:
+        # via == "cwdfile": the configuration is the implicit ./gunicorn.conf.py of the start directory and names another
+        # directory as `chdir` - where the application lives; every reload must find that file again
+        self.appdir = self.dir
+        if self.conf.get("via") == "cwdfile":
+            self.appdir = os.path.join(self.dir, "appdir")
+            os.mkdir(self.appdir)
+            os.chmod(self.appdir, 0o755)
+        with open(os.path.join(self.appdir, "c20app.py"), "w") as fh:
             fh.write(APP_PY)
         # started through a launcher script, not `python -m gunicorn`: on USR2 the arbiter re-executes
         # sys.argv, and `python /repo/gunicorn/__main__.py` would put gunicorn/ itself first on sys.path
@@ -614,10 +621,12 @@ class Server:
             "sock": self.sock, "pidfile": self.pidfile, "ids": self.ids, "errorlog": self.errorlog}
         # unset user/group = not configured at all
         lines = [l for l in txt.splitlines() if l not in ("user = None", "group = None")]
-        if c.get("via", "file") != "file":
+        if c.get("via", "file") in ("cli", "env"):
             # the identity comes from the command line / from GUNICORN_CMD_ARGS, not from the file (see identity_args)
             lines = [l for l in lines if not l.startswith(("user = ", "group = ", "initgroups = "))]
-        with open(os.path.join(self.dir, "conf.py"), "w") as fh:
+        if c.get("via") == "cwdfile":
+            lines.append("chdir = %r" % self.appdir)
+        with open(os.path.join(self.dir, "gunicorn.conf.py" if c.get("via") == "cwdfile" else "conf.py"), "w") as fh:
             fh.write("\n".join(lines) + "\n")
 
     def identity_args(self):
@@ -650,7 +659,8 @@ class Server:
                 enter_fake_group_db(ft)
             if mg is not None:
                 os.setgroups(mg)
-        self.proc = subprocess.Popen([sys.executable, os.path.join(self.dir, "c20run.py"), "-c", os.path.join(self.dir, "conf.py")] + extra + ["c20app:app"],
+        conf_args = [] if via == "cwdfile" else ["-c", os.path.join(self.dir, "conf.py")]
+        self.proc = subprocess.Popen([sys.executable, os.path.join(self.dir, "c20run.py")] + conf_args + extra + ["c20app:app"],
                                      cwd=self.dir, env=env, stdout=open(os.path.join(self.dir, "stdout.txt"), "wb"),
                                      stderr=open(os.path.join(self.dir, "stderr.txt"), "wb"), preexec_fn=pre)
         self.table = [self.proc.pid]
